@@ -126,7 +126,10 @@ func Finalizing(ctx interface{}) error {
 
 		bjob, err := context.JobStore.GetJob(tracker.GetJobID(ethereum.BusyBroadcasting))
 		if err != nil {
-			return errors.Wrap(err, "failed to get job")
+			// the job store is local to this node: a missing job must not change the outcome of
+			// the tracker transition, which is part of the replicated state
+			context.Logger.Error("failed to get broadcast job, no finality job created", err)
+			return nil
 		}
 
 		if !bjob.IsDone() || bjob.IsFailed() {
